@@ -72,19 +72,21 @@ func differsSig(k string, refused bool) string {
 }
 
 type observations struct {
-	setPathEmptyNoop, setPathEmptyClear int64
+	setPathEmptyNoop, setPathEmptyClear   int64
 	uriPathLongRefused, uriPathLongStored int64
 }
 
-func newOptWorld(cfg optCfg, backing []byte, obs *observations) *optWorld {
-	w := &optWorld{cfg: cfg, obs: obs}
+// backing is the worker's reusable buffer; only its first dirty bytes can differ from the 0xEE
+// fill (written by the previous sequence), so only those are re-filled.
+func newOptWorld(cfg optCfg, backing []byte, dirty int) *optWorld {
+	w := &optWorld{cfg: cfg}
 	if cfg.Cap > 0 {
 		w.opts = make(message.Options, 0, cfg.Cap)
 	}
-	w.buf = backing[:cfg.Buf:cfg.Buf]
-	for i := range w.buf {
-		w.buf[i] = 0xEE
+	for i := 0; i < dirty && i < len(backing); i++ {
+		backing[i] = 0xEE
 	}
+	w.buf = backing[:cfg.Buf:cfg.Buf]
 	return w
 }
 
